@@ -238,11 +238,11 @@ example : SepObs (fun x : ℚ => ⌊x⌋) (1 / 10 ^ 10) 10 5 [0, 3 / 10, 1] [0, 
 /-! ### *SepObs* is needed; the two former defects -/
 
 /-- The code's tolerances at ℚ. -/
-abbrev tolMerge : ℚ := 1 / 10 ^ 12
+abbrev tolMerge : ℚ := 2 / 10 ^ 12
 abbrev tolEval : ℚ := 1 / 10 ^ 10
 
 /-- Without *SepObs*: duration 10, dt 5, one observable at τ = 1/2 + 5·10⁻¹¹. The sorted
-candidates are `0, 5, 5 + 5·10⁻¹⁰, 10`; nothing is merged (gap 5·10⁻¹⁰ > 10⁻¹¹), and the
+candidates are `0, 5, 5 + 5·10⁻¹⁰, 10`; nothing is merged (gap 5·10⁻¹⁰ > 2·10⁻¹¹), and the
 observable is recorded twice: at the dt multiple 1/2 (within 10⁻¹⁰ of τ) and at τ. -/
 theorem sep_needed :
     mergeGrid (tolMerge * 10) [0, 5, 5 + 5 / 10 ^ 10, 10] = some [0, 5, 5 + 5 / 10 ^ 10, 10] ∧
